@@ -96,7 +96,7 @@ def check_embedding(ctx, c):
     if iso.shape != want.shape or e > 1e-13 * max(1.0, common.maxabs(want) / max(R, 1.0)):
         ctx.fail(dict(mech, what="isometrize!=sphere-point"), f"max deviation {e:.3e} (R={R}, time ratio {c['time_anis']})")
         return
-    if abs(common.maxabs(np.linalg.norm(iso[:3], axis=0) - R)) > 1e-12 * R:
+    if not abs(common.maxabs(np.linalg.norm(iso[:3], axis=0) - R)) <= 1e-12 * R:
         ctx.fail(dict(mech, what="not-on-sphere-of-radius-geo_scale"), "radius differs from geo_scale")
         return
     # back and forth: identity as points on the sphere (longitude modulo 360, undefined at the poles)
@@ -106,7 +106,7 @@ def check_embedding(ctx, c):
     if e2 > 1e-7:
         ctx.fail(dict(mech, what="anisometrize(isometrize)!=id-on-sphere"), f"3-D deviation {e2:.3e} R")
         return
-    if np.any(np.abs(back[0]) > 90 + 1e-12) or np.any(back[1] > 180 + 1e-12) or np.any(back[1] < -180 - 1e-12):
+    if not (np.all(np.abs(back[0]) <= 90 + 1e-12) and np.all(back[1] <= 180 + 1e-12) and np.all(back[1] >= -180 - 1e-12)):
         ctx.fail(dict(mech, what="latlon-out-of-range"), f"lat/lon out of range: {back[:2]}")
         return
     if c["temporal"] and common.maxabs(back[2] - t) > 1e-12 * max(1.0, common.maxabs(t)) * max(1.0, c["time_anis"], 1 / c["time_anis"]):
@@ -162,14 +162,14 @@ def check_cov_used(ctx, c):
             lag = chord
         want = float(ocov.correlation(d3, lag))
         ctx.event("covariances_recovered")
-        if abs(float(f[0]) - want) > 1e-9 + 1e-8 * abs(want):
+        if not abs(float(f[0]) - want) <= 1e-9 + 1e-8 * abs(want):
             ctx.fail({"what": "kriging-covariance!=yadrenko(great-circle)", "model": c["name"], "temporal": c["temporal"]},
                      f"points ({lat[src]:.4f},{lon[src]:.4f}) / ({lat[i]:.4f},{lon[i]:.4f}): kriging weight {float(f[0])!r}, "
                      f"closed form at the chord {want!r} (R={R})")
             return
         if not c["temporal"]:
             cy = float(model.cor_yadrenko(zeta * R))
-            if abs(cy - want) > 1e-9 + 1e-8 * abs(want):
+            if not abs(cy - want) <= 1e-9 + 1e-8 * abs(want):
                 ctx.fail({"what": "cor_yadrenko!=closed-form(chord)", "model": c["name"]}, f"{cy} vs {want}")
                 return
 
@@ -360,7 +360,7 @@ def check_fit(ctx, c):
         ctx.fail(dict(mech, what="latlon-fit-r2"), f"r2 = {r2!r} for noise-free Yadrenko data")
         return
     for p in ("var", "len_scale", "nugget"):
-        if abs(float(res[p]) - kw[p]) > 2e-3 * max(kw[p], 0.05 * (R if p == "len_scale" else 1.0)):
+        if not abs(float(res[p]) - kw[p]) <= 2e-3 * max(kw[p], 0.05 * (R if p == "len_scale" else 1.0)):
             ctx.fail(dict(mech, what="latlon-fit-parameter", par=p), f"{p}: fitted {res[p]} true {kw[p]}")
             return
 
